@@ -33,7 +33,7 @@ META = {
                      "field declaration order = source order for solang_parser 0.1.18 (checked by reading the grammar)",
                      "inline assembly (Yul types) is excluded by type, as the property states"],
     "assumptions": ["parser correctness is out of scope", "declaration order of fields coincides with source order (DESIGN 4.1)"],
-    "floors": {"R01.children": 99, "R01.order": 99, "R01.uncond": 60, "R01.preorder": 5, "R01.tables": 95, "R01.entry": 4},
+    "floors": {"R01.children": 99, "R01.order": 99, "R01.uncond": 60, "R01.preorder": 5, "R01.tables": 95, "R01.entry": 4, "R01.loops": 25},
 }
 
 
@@ -203,6 +203,17 @@ def run(ctx, crate):
                               expected="guards implied by the path only: %s" % sorted(a.replace(show(payload), "n") for a in allowed),
                               found=S.guard_str(g).replace(show(payload), "n")))
     ctx.analysed.setdefault("C01", {})[crate.ctype] = {"variants": n_variants, "recursive_calls": len(rec)}
+    # ------------------------------------------------------------ R01.loops: every list is walked to its end
+    import order as O
+    for lp in O.loops_of_body(w):
+        normal, extra = lp.exits()
+        it = show(lp.iterable)
+        obs.append(Ob("R01.loops", WALKER, "the loop over %s visits every element (no break / early return)" % it[-70:], not extra and lp.order == "ordered",
+                      site=lp.site.where, expected="exhaustion is the only exit; iteration in list order",
+                      found=("early exit at line(s) %s" % sorted(set(w.blocks[x]["tloc"]["line"] for (x, t) in extra))) if extra else lp.self_ty.split("<")[0],
+                      example="a tuple with an omitted component followed by further components: (, a[i++]) = f();"))
+    plain_loops = [h for h in w.loops if not any(lp.head == h for lp in O.loops_of_body(w))]
+    obs.append(Ob("R01.loops", WALKER, "no loop other than list iteration", not plain_loops, found=len(plain_loops)))
     # ------------------------------------------------------------ R01.preorder
     pushes = [s for s in sites if s.path == "std::vec::Vec::<T, A>::push" and s.args and s.args[0] == matches]
     appends = [s for s in sites if s.path == "std::vec::Vec::<T, A>::append" and s.args and s.args[0] == matches]
